@@ -46,12 +46,58 @@ RunFrom(rec, s) == IF ~s.ok THEN s
                    ELSE RunFrom(rec, Step(rec, s))
 Run(rec) == RunFrom(rec, Init0(rec))
 
+\* --- the body phase up to the first call: the put instructions build the arguments of the goal. A put_functor / put_list /
+\* put_partial suspends the argument list being built and starts the arguments of the structure; pop closes the structure and
+\* appends it to the suspended list (the implementation appends the structure first and fills its arguments in place).
+PutStep(rec, s) ==
+  LET c == rec.code
+      op == Op(c, s.pc)
+      a == Arg(c, s.pc)
+      p == Append(s.path, op)
+      Open(kind, name, n) == [s EXCEPT !.pc = s.pc + 1, !.astack = Append(s.astack, [outer |-> s.args, kind |-> kind, name |-> name, n |-> n]), !.args = <<>>, !.path = p]
+  IN CASE op = "put_const" -> [s EXCEPT !.pc = s.pc + 1, !.args = Append(s.args, a), !.path = p]
+       [] op = "put_var" -> [s EXCEPT !.pc = s.pc + 1, !.args = Append(s.args, ClauseVar(rec, a[2])), !.path = p]
+       [] op = "put_functor" -> Open("f", PIName(a), PIArity(a))
+       [] op = "put_list" -> Open("l", "", a[2])
+       [] op = "put_partial" -> Open("p", "", a[2] + 1)
+       [] op = "pop" -> IF s.astack = <<>> THEN [s EXCEPT !.ok = FALSE, !.path = Append(p, "stuck")]
+                        ELSE LET f == s.astack[Len(s.astack)]
+                                 t == IF Len(s.args) # f.n THEN Bad
+                                      ELSE IF f.kind = "f" THEN C(f.name, s.args)
+                                      ELSE IF f.kind = "l" THEN MkList(s.args)
+                                      ELSE PartialOf(Tail(s.args), s.args[1])          \* the tail is built first
+                             IN [s EXCEPT !.pc = s.pc + 1, !.astack = SubSeq(s.astack, 1, Len(s.astack) - 1), !.args = Append(f.outer, t), !.path = p]
+       [] op = "cut" -> [s EXCEPT !.pc = s.pc + 1, !.path = p]                  \* (what a cut removes is Engine.tla's business)
+       [] OTHER -> [s EXCEPT !.ok = FALSE, !.path = Append(p, "stuck")]
+RECURSIVE PutRun(_, _)
+PutRun(rec, s) == IF ~s.ok THEN s
+                  ELSE IF Op(rec.code, s.pc) \in {"call", "exit"} THEN [s EXCEPT !.path = Append(s.path, Op(rec.code, s.pc))]
+                  ELSE PutRun(rec, PutStep(rec, s))
+\* from the state in which the head was done (at the enter instruction) to the first call
+FirstGoal(rec) == LET h == Run(rec) IN PutRun(rec, [h EXCEPT !.pc = h.pc + 1, !.args = <<>>, !.astack = <<>>, !.path = <<>>])
+
 \* --- conformance of a recorded activation ---
 ArgsAfter(rec, s) == C("$", [i \in 1..Len(rec.args) |-> Resolve(rec.args[i], s.bind)])
 Conforms(rec) == LET s == Run(rec) IN
                  /\ s.path = rec.path
                  /\ s.ok = rec.ok
                  /\ (s.ok => Variant(ArgsAfter(rec, s), C("$", rec.after)))
+\* the record also has the first goal the activation called (goal: its name, goalargs: its arguments, path2: the instructions)
+HasGoal(rec) == "goal" \in DOMAIN rec
+Joint(rec, s, gargs) == C("$", [i \in 1..Len(rec.args) |-> Resolve(rec.args[i], s.bind)] \o [i \in 1..Len(gargs) |-> Resolve(gargs[i], s.bind)])
+ConformsGoal(rec) == HasGoal(rec) =>
+                       LET g == FirstGoal(rec) IN
+                       /\ g.ok /\ g.path = rec.path2
+                       /\ Op(rec.code, g.pc) = "call" /\ PIName(Arg(rec.code, g.pc)) = rec.goal /\ PIArity(Arg(rec.code, g.pc)) = Len(g.args)
+                       /\ Variant(Joint(rec, g, g.args), C("$", rec.after \o rec.goalargs))
+\* ... and it is the first goal of the body that Decompile reads from the code (cuts skipped), instantiated by the head unification
+MeansGoal(rec) == HasGoal(rec) =>
+                    LET g == FirstGoal(rec)
+                        h == Run(rec)
+                        goals == SelectSeq(ParseGoals(rec.code, h.pc + 1), LAMBDA t : t # A("!"))
+                        first == Shift(goals[1], NArgVars(rec))
+                    IN /\ goals # <<>>
+                       /\ Variant(Joint(rec, g, g.args), Joint(rec, g, Args(first)))
 \* --- meaning: the head code is unification with the head it denotes ---
 HeadArgs(rec) == ParseArgs(rec.code, 1, rec.arity, "get").ts           \* variables 1..nvars (Decompile numbers clause variables from 1)
 Means(rec) == LET s == Run(rec)
